@@ -307,6 +307,7 @@ fn format(opt: opt::Opt) -> Result<i32> {
         walker_builder.add_ignore(ignore_path);
     }
 
+    let mut custom_globs = None;
     let use_default_glob = match opt.glob {
         Some(ref globs) => {
             // Build overriders with any patterns given
@@ -315,7 +316,9 @@ fn format(opt: opt::Opt) -> Result<i32> {
                 overrides.add(pattern)?;
             }
             let overrides = overrides.build()?;
-            walker_builder.overrides(overrides);
+            walker_builder.overrides(overrides.clone());
+            // The walker does not apply the globs to paths given explicitly: keep them for `--respect-ignores`
+            custom_globs = Some(overrides);
             // We shouldn't use the default glob anymore
             false
         }
@@ -467,6 +470,17 @@ fn format(opt: opt::Opt) -> Result<i32> {
                                 };
                             }
                             if !DEFAULT_GLOB.is_match(&path) {
+                                continue;
+                            }
+                        }
+
+                        // If `--respect-ignores` was given and this is an explicit file path,
+                        // it has to match the globs given with `--glob` like any other file
+                        if let Some(custom_globs) = &custom_globs {
+                            if is_explicitly_provided(opt.as_ref(), &path)
+                                && should_respect_ignores(opt.as_ref(), &path)
+                                && custom_globs.matched(&path, false).is_ignore()
+                            {
                                 continue;
                             }
                         }
